@@ -1219,3 +1219,39 @@ CONTRACTS[CI + 'CliffordLayer.backward#state'] = dict(
     ensures=_inv_obj_post, modifies=['obj.gs', 'obj.ps'], returns='=obj', calls={'gate.backward': 'CliffordGate.backward#any_state'},
     loops={0: dict(var='gi', invariant=[_inv_obj, 'cols(obj.gs) % 2 == 0', 'obj.r == old(obj.r)', 'rows(obj.gs) == cols(obj.gs)', 'len(obj.ps) == rows(obj.gs)'])},
 )
+
+# ------------------------------------------------------------------ C20 / C15: selection from a polynomial keeps strings, PHASES and coefficients of the selected terms
+CONTRACTS[PA + 'PauliPolynomial.__getitem__#int'] = dict(
+    params=[('self', POLY), ('item', 'int')],
+    requires=['0 <= item < rows(self.gs)', 'len(self.ps) == rows(self.gs)', 'len(self.cs) == rows(self.gs)'],
+    ensures=['len(result.g) == cols(self.gs)', 'forall(c, 0, cols(self.gs), result.g[c] == self.gs[item][c])', 'result.p == self.ps[item]', 'result.c == self.cs[item]'],
+    modifies=[], returns=PMONO,
+)
+CONTRACTS[PA + 'PauliPolynomial.__getitem__#slice'] = dict(
+    params=[('self', POLY), ('item', 'slice')],
+    requires=['0 <= item.start <= item.stop <= rows(self.gs)', 'len(self.ps) == rows(self.gs)', 'len(self.cs) == rows(self.gs)'],
+    ensures=['rows(result.gs) == item.stop - item.start', 'cols(result.gs) == cols(self.gs)', 'len(result.ps) == item.stop - item.start',
+             'len(result.cs) == item.stop - item.start',
+             'forall(k, 0, item.stop - item.start, forall(c, 0, cols(self.gs), result.gs[k][c] == self.gs[k + item.start][c]))',
+             'forall(k, 0, item.stop - item.start, result.ps[k] == self.ps[k + item.start])',
+             'forall(k, 0, item.stop - item.start, result.cs[k] == self.cs[k + item.start])'],
+    modifies=[], returns=POLY,
+)
+CONTRACTS[PA + 'PauliPolynomial.__getitem__#index'] = dict(
+    params=[('self', POLY), ('item', 'int1')],
+    requires=['forall(k, 0, len(item), 0 <= item[k] < rows(self.gs))', 'len(self.ps) == rows(self.gs)', 'len(self.cs) == rows(self.gs)'],
+    ensures=['rows(result.gs) == len(item)', 'cols(result.gs) == cols(self.gs)', 'len(result.ps) == len(item)', 'len(result.cs) == len(item)',
+             'forall(k, 0, len(item), forall(c, 0, cols(self.gs), result.gs[k][c] == self.gs[item[k]][c]))',
+             'forall(k, 0, len(item), result.ps[k] == self.ps[item[k]])',
+             'forall(k, 0, len(item), result.cs[k] == self.cs[item[k]])'],
+    modifies=[], returns=POLY,
+)
+CONTRACTS[PA + 'PauliPolynomial.__getitem__#mask'] = dict(
+    params=[('self', POLY), ('item', 'bool1')],
+    requires=['len(item) == rows(self.gs)', 'len(self.ps) == rows(self.gs)', 'len(self.cs) == rows(self.gs)'],
+    ensures=['rows(result.gs) == %s' % _giM, 'cols(result.gs) == cols(self.gs)', 'len(result.ps) == %s' % _giM, 'len(result.cs) == %s' % _giM,
+             'forall(k, 0, %s, forall(c, 0, cols(self.gs), result.gs[k][c] == self.gs[MaskIdx(item, len(item))[k]][c]))' % _giM,
+             'forall(k, 0, %s, result.ps[k] == self.ps[MaskIdx(item, len(item))[k]])' % _giM,
+             'forall(k, 0, %s, result.cs[k] == self.cs[MaskIdx(item, len(item))[k]])' % _giM],
+    modifies=[], returns=POLY,
+)
